@@ -35,14 +35,14 @@ template <class S> struct KeyOps {
     static bool insert(S& s, long k, long i) { return s.insert(Item(k, i)); }
     static bool erase(S& s, long k, long& inst) { return s.erase(k, EF{&inst}); }
     static bool contains(S& s, long k) { return s.contains(k); }
-    static std::pair<bool, bool> upsert(S& s, long k, long i) { return s.upsert(Item(k, i), true); }
+    static std::pair<bool, bool> upsert(S& s, long k, long i, long& old) { return s.update(Item(k, i), [&old](Item&, Item* o) { if (o) old = o->inst; }, true); }
 };
 template <class S> struct HashOps {
     typedef FItem item;
     static bool insert(S& s, long k, long i) { return s.insert(FItem(k, i)); }
     static bool erase(S& s, long k, long& inst) { return s.erase(fhash(k), EF{&inst}); }
     static bool contains(S& s, long k) { return s.contains(fhash(k)); }
-    static std::pair<bool, bool> upsert(S& s, long k, long i) { return s.update(FItem(k, i), [](FItem&, FItem*) {}, true); }
+    static std::pair<bool, bool> upsert(S& s, long k, long i, long& old) { return s.update(FItem(k, i), [&old](FItem&, FItem* o) { if (o) old = o->inst; }, true); }
 };
 template <class GC, class S, class Ops, int Mode /*0 ordered exactly-once, 1 exactly-once, 2 at-least-once*/, bool Reverse> struct ItA {
     typedef typename SmrOf<GC>::type Smr; typedef S set_type; typedef Ops ops; static const int mode = Mode; static const bool has_reverse = Reverse;
@@ -51,8 +51,8 @@ template <class GC, class S, class Ops, int Mode /*0 ordered exactly-once, 1 exa
     template <class X = S> auto make(const Program& p, int) -> decltype((void)new X((size_t)1, (size_t)1)) { s.reset(new S((size_t)p.knob("arg1", 2), (size_t)p.knob("arg2", 1))); }
     void make(const Program&, long) { s.reset(new S()); }
 };
-template <class A, bool R> struct RevWalk { template <class F> static void go(typename A::set_type&, long, F) {} };
-template <class A> struct RevWalk<A, true> { template <class F> static void go(typename A::set_type& s, long hold, F visit) { for (auto it = s.rbegin(); it != s.rend(); ++it) { visit(it->key, it->inst); for (long k = 0; k < hold; k++) dsim::point(dsim::K_USER); visit(it->key, it->inst); } } };
+template <class A, bool R> struct RevWalk { template <class F, class P, class Q> static void go(typename A::set_type&, long, F, P, Q) {} };
+template <class A> struct RevWalk<A, true> { template <class F, class P, class Q> static void go(typename A::set_type& s, long hold, F visit, P pre, Q post) { for (auto it = (pre(), s.rbegin()); (post(), it != s.rend()); (pre(), ++it)) { visit(it->key, it->inst); for (long k = 0; k < hold; k++) dsim::point(dsim::K_USER); visit(it->key, it->inst); } } };
 
 template <class A> void run(Ctx& ctx) {
     const Program& P = *ctx.prog; g_hash_mode = (int)P.knob("hash_mode");
@@ -60,6 +60,11 @@ template <class A> void run(Ctx& ctx) {
     std::map<long, long> inst_key;            // every instance id ever created -> its key
     std::vector<std::vector<Seen>> walks;     // one entry per ITER op
     std::vector<long> removed_inst;           // instances removed by successful erase / erase_at
+    // Reclamation passes in these runs are the harness-decided eager ones (retired capacities are far above what a run retires), so their
+    // step intervals are known; 'moves' are the intervals of the calls that hand an element from one iterator object to another
+    // (begin(), operator++ crossing into another bucket: the library copies the guard and releases the source guard).
+    struct Ival { uint64_t a, b; int thread; };
+    std::vector<Ival> scans, moves;
     {
         typename A::Smr smr(P); cds::threading::Manager::attachThread();
         {
@@ -75,18 +80,24 @@ template <class A> void run(Ctx& ctx) {
                 [&](int t, const Op& op) {
                     int h = ctx.begin_op(t, op); long inst = 1000 + op.id; long r = 0, r2 = -1, r3 = 0;
                     if (op.kind == O_ITER) {
-                        ++dsim::t_bypass; walks.emplace_back(); --dsim::t_bypass; size_t w = walks.size() - 1; long nerased = 0;
+                        ++dsim::t_bypass; walks.emplace_back(); --dsim::t_bypass; size_t w = walks.size() - 1; long nerased = 0; uint64_t mv0 = 0;
+                        auto note_move = [&](int th, uint64_t from) { ++dsim::t_bypass; moves.push_back(Ival{from, dsim::now_step(), th}); --dsim::t_bypass; };
                         auto visit = [&](long key, long ins) {
                             ++dsim::t_bypass; walks[w].push_back(Seen{key, ins, dsim::now_step()}); --dsim::t_bypass;
                             auto f = inst_key.find(ins);
-                            if (f == inst_key.end() || f->second != key) ctx.fail("iterator-exposed-disposed", "the element under the iterator reads key %ld / instance %ld, which is not a live element (disposed or recycled memory)", key, ins);
+                            if (f == inst_key.end() || f->second != key) {
+                                // known finding (DESIGN.md 9.2): a reclamation pass that overlaps a guard-to-guard copy inside begin() / operator++ can miss the element
+                                bool copy_race = false;
+                                for (auto& m : moves) if (m.thread == t) for (auto& sc : scans) if (sc.thread != t && sc.a < m.b && m.a < sc.b) copy_race = true;
+                                ctx.fail(copy_race ? "iterator-exposed-disposed-guard-copy" : "iterator-exposed-disposed", "the element under the iterator reads key %ld / instance %ld, which is not a live element (disposed or recycled memory)%s", key, ins, copy_race ? "; a reclamation pass of another thread overlapped a begin()/operator++ call of this iterator (hazard pointer copied between guards while the pass was reading them)" : "");
+                            }
                         };
-                        if (op.a == 1 && A::has_reverse) RevWalk<A, A::has_reverse>::go(s, op.b, visit);
-                        else for (auto it = s.begin(); it != s.end(); ++it) {
+                        if (op.a == 1 && A::has_reverse) RevWalk<A, A::has_reverse>::go(s, op.b, visit, [&]() { mv0 = dsim::now_step(); }, [&]() { note_move(t, mv0); });
+                        else for (auto it = (mv0 = dsim::now_step(), s.begin()); (note_move(t, mv0), it != s.end()); (mv0 = dsim::now_step(), ++it)) {
                             long key = it->key, ins = it->inst; visit(key, ins);
                             for (long k = 0; k < op.b; k++) dsim::point(dsim::K_USER);
                             visit(it->key, it->inst);   // still the same, live element after the hold
-                            if (op.c && key % STABLE_STEP != 0 && (key + (long)walks[w].size()) % 3 == 0) {
+                            if (op.c && key % STABLE_STEP != 0 && (op.c == 2 || (key + (long)walks[w].size()) % 3 == 0)) {
                                 bool ok = s.erase_at(it);
                                 Event e; e.thread = t; e.opid = op.id; e.kind = O_ERASE; e.a = key; e.c = 7; e.r = ok; e.r2 = ins; e.inv = hist_inv_of(ctx, h); e.ret = dsim::now_step(); e.done = true;
                                 ++dsim::t_bypass; ctx.hist.push_back(e); if (ok) removed_inst.push_back(ins); --dsim::t_bypass; if (ok) ++nerased;
@@ -95,9 +106,9 @@ template <class A> void run(Ctx& ctx) {
                         r = (long)walks[w].size(); r2 = nerased; r3 = (long)w;
                     } else if (op.kind == O_INS) { record_inst(inst, op.a); r = Ops::insert(s, op.a, inst); r2 = inst; }
                     else if (op.kind == O_ERASE) { long rem = -1; r = Ops::erase(s, op.a, rem); r2 = rem; if (r) { ++dsim::t_bypass; removed_inst.push_back(rem); --dsim::t_bypass; } }
-                    else { record_inst(inst, op.a); auto pr = Ops::upsert(s, op.a, inst); r = pr.first; r3 = pr.second; r2 = inst; }
+                    else { record_inst(inst, op.a); long old = -1; auto pr = Ops::upsert(s, op.a, inst, old); r = pr.first; r3 = pr.second; r2 = inst; if (pr.first && !pr.second && old > 0) { ++dsim::t_bypass; removed_inst.push_back(old); --dsim::t_bypass; } }   // a replacing update removes the old instance
                     ctx.end_op(h, r, r2, r3);
-                    if (eager && dsim::decide(dsim::D_EAGER, eager)) { A::Smr::eager(); ctx.probe("F10_eager_reclaim"); }
+                    if (eager && dsim::decide(dsim::D_EAGER, eager)) { ++dsim::t_bypass; scans.push_back(Ival{dsim::now_step(), ~0ULL, t}); size_t si = scans.size() - 1; --dsim::t_bypass; A::Smr::eager(); scans[si].b = dsim::now_step(); ctx.probe("F10_eager_reclaim"); }
                 },
                 [&](int) { cds::threading::Manager::detachThread(); });
             // quiescent membership per key, for the conservation check
@@ -129,7 +140,7 @@ template <class A> void run(Ctx& ctx) {
         }
     }
     // (2) erase_at / erase conservation: every successful removal names a distinct instance; per key inserts - removals = final membership
-    { std::set<long> seen; for (long i : removed_inst) if (i > 0 && !seen.insert(i).second) { ctx.fail("removed-twice", "instance %ld was removed by two successful erase / erase_at calls", i); return; } }
+    { std::set<long> seen; for (long i : removed_inst) if (i > 0 && !seen.insert(i).second) { ctx.fail("removed-twice", "instance %ld was removed twice (by two of: successful erase, successful erase_at on an iterator showing it, replacing update): erase_at removed an element other than the one under its iterator, or an element was unlinked twice", i); return; } }
     std::map<long, long> balance; std::map<long, bool> final_present;
     for (auto& e : ctx.hist) {
         if (!e.done) continue;
@@ -152,10 +163,10 @@ void gen(Rng& r, Program& p, int tier, const std::string&) {
     smr_knobs(r, p, nth, 16); p.threads.resize(nth);
     for (int t = 0; t < nth; t++) {
         bool iterating = t == 0 || r.chance(250);
-        int nops = iterating ? r.range(1, 2) : r.range(2, 6);
+        int nops = iterating ? r.range(1, 2) : r.range(2, 6), nvol = r.pick({3, 5, 8});   // few volatile keys: updaters hit the element under the iterator more often
         for (int k = 0; k < nops; k++) {
-            if (iterating) p.add(t, O_ITER, r.below(2), r.pick({0, 1, 2, 4}), r.chance(400));
-            else { long key = 1 + r.below(8); key += key / STABLE_STEP; if (key % STABLE_STEP == 0) ++key; int x = r.below(100); p.add(t, x < 40 ? O_INS : x < 80 ? O_ERASE : O_UPD, key); }
+            if (iterating) p.add(t, O_ITER, r.below(2), r.pick({0, 1, 2, 4}), r.pick({0, 0, 0, 1, 1, 2}));   // c: erase_at on no / some / every volatile element
+            else { long key = 1 + r.below(nvol); key += key / STABLE_STEP; if (key % STABLE_STEP == 0) ++key; int x = r.below(100); p.add(t, x < 40 ? O_INS : x < 70 ? O_ERASE : O_UPD, key); }
         }
     }
 }
